@@ -1,10 +1,12 @@
 // c05 harness: installs through the real public API (apk.New + InitDB +
 // InstallPackages, the entry point of both the resolver-driven and the
 // lock-file-driven build) against an origin whose bytes the harness controls:
-// for each generated package every substitution of the property's statement,
-// with the cache disabled / cold / warm, lazily (tarfs) and streaming (memfs),
-// within one process (the URL-keyed memo of expanded packages is live) or
-// across processes (memo reset through the verif hook).
+// for each generated package every substitution of the property's statement and
+// every shape of the served byte stream (which gzip members, in which order,
+// what follows them), with the cache disabled / cold / warm / warm without the
+// uncompressed tar, lazily (tarfs) and streaming (memfs), within one process
+// (the memo of expanded packages is live) or across processes (memo reset
+// through the verif hook).
 package main
 
 import (
@@ -41,53 +43,210 @@ func (h handle) ChecksumString() string { return h.chk }
 
 // ---- what the origin can serve ------------------------------------------------
 
-// part of an .apk: the control member of one build, the data member of one build
-type apkfile struct {
-	Label   string           `json:"label"`
-	ctlOf   *synthrepo.Built // signature + control come from here
-	datOf   *synthrepo.Built // data comes from here
-	garbage []byte
+// a served byte stream: complete gzip members in order, then whatever is not one
+type served struct {
+	Label   string `json:"label"`
+	Shape   string `json:"shape"` // number of members / trailing bytes, for the replay description
+	members [][]byte
+	trail   []byte
 }
 
-func (a *apkfile) bytes() []byte {
-	if a.garbage != nil {
-		return a.garbage
+func stream(label string, members ...[]byte) *served {
+	var ms [][]byte
+	for _, m := range members {
+		if m != nil {
+			ms = append(ms, m)
+		}
 	}
-	return append(append(append([]byte{}, a.ctlOf.Sig...), a.ctlOf.Control...), a.datOf.Data...)
+	return &served{Label: label, Shape: fmt.Sprintf("%d members", len(ms)), members: ms}
 }
 
-func datahashValues(control []byte) []string {
-	zr, err := gzip.NewReader(bytes.NewReader(control))
+func (s *served) withTrail(t []byte) *served {
+	return &served{Label: s.Label, Shape: fmt.Sprintf("%d members + %d trailing bytes", len(s.members), len(t)), members: s.members, trail: t}
+}
+
+func (s *served) bytes() []byte {
+	var out []byte
+	for _, m := range s.members {
+		out = append(out, m...)
+	}
+	return append(out, s.trail...)
+}
+
+// control member of one build, data member of another
+func mix(label string, ctlOf, datOf *synthrepo.Built) *served {
+	return stream(label, ctlOf.Sig, ctlOf.Control, datOf.Data)
+}
+func whole(label string, b *synthrepo.Built) *served { return mix(label, b, b) }
+
+// ---- the decoders handed to the model as tables (stdlib gzip / tar, the .PKGINFO line format) ----
+
+func gunzipAll(b []byte) ([]byte, bool) {
+	zr, err := gzip.NewReader(bytes.NewReader(b))
 	if err != nil {
-		panic(err)
+		return nil, false
 	}
-	tr := tar.NewReader(zr)
+	out, err := io.ReadAll(zr)
+	if err != nil {
+		return nil, false
+	}
+	return out, true
+}
+
+func firstName(member []byte) (string, bool) {
+	t, ok := gunzipAll(member)
+	if !ok {
+		return "", false
+	}
+	h, err := tar.NewReader(bytes.NewReader(t)).Next()
+	if err != nil {
+		return "", false
+	}
+	return h.Name, true
+}
+
+// the first .PKGINFO of a member read as control section: pkgdesc and every datahash value
+func ctlView(member []byte) (desc string, dhs []string, ok bool) {
+	t, ok := gunzipAll(member)
+	if !ok {
+		return "", nil, false
+	}
+	tr := tar.NewReader(bytes.NewReader(t))
 	for {
 		h, err := tr.Next()
 		if err != nil {
-			panic("no .PKGINFO in synthetic control")
+			return "", nil, false
 		}
 		if h.Name != ".PKGINFO" {
 			continue
 		}
-		b, _ := io.ReadAll(tr)
-		var out []string
+		b, err := io.ReadAll(tr)
+		if err != nil {
+			return "", nil, false
+		}
 		for _, line := range strings.Split(string(b), "\n") {
 			parts := strings.Split(line, "=")
-			if len(parts) != 2 || strings.TrimSpace(parts[0]) != "datahash" {
+			if len(parts) != 2 {
 				continue
 			}
-			out = append(out, strings.TrimSpace(parts[1]))
+			switch strings.TrimSpace(parts[0]) {
+			case "datahash":
+				dhs = append(dhs, strings.TrimSpace(parts[1]))
+			case "pkgdesc":
+				desc = strings.TrimSpace(parts[1])
+			}
 		}
-		return out
+		// the whole archive must be readable (tarfs.New indexes all of it)
+		for {
+			if _, err := tr.Next(); err == io.EOF {
+				break
+			} else if err != nil {
+				return "", nil, false
+			}
+		}
+		return desc, dhs, true
 	}
 }
 
-// tables of digests handed to the model
+type entry struct {
+	name, kind, link string
+	body             []byte
+	sum              string // Gallina term of the recorded checksum
+}
+
+// byte strings are printed as one hex literal decoded in Coq (Corr/C05.hx): far cheaper to parse than a list of numerals
+func hb(b []byte) string {
+	if len(b) == 0 {
+		return "[]"
+	}
+	return `(hx "` + hex.EncodeToString(b) + `")`
+}
+
+func recsum(h *tar.Header) string {
+	v, ok := h.PAXRecords["APK-TOOLS.checksum.SHA1"]
+	if !ok {
+		return "SumNone"
+	}
+	var d []byte
+	var err error
+	if strings.HasPrefix(v, "Q1") {
+		d, err = base64.StdEncoding.DecodeString(strings.TrimPrefix(v, "Q1"))
+	} else {
+		d, err = hex.DecodeString(v)
+	}
+	if err != nil {
+		return "SumBad"
+	}
+	return "(SumSome " + hb(d) + ")"
+}
+
+func untar(t []byte) ([]entry, bool) {
+	tr := tar.NewReader(bytes.NewReader(t))
+	var out []entry
+	for {
+		h, err := tr.Next()
+		if err == io.EOF {
+			return out, true
+		}
+		if err != nil {
+			return nil, false
+		}
+		e := entry{name: h.Name, sum: recsum(h)}
+		switch h.Typeflag {
+		case tar.TypeReg:
+			e.kind = "FReg"
+			b, err := io.ReadAll(tr)
+			if err != nil {
+				return nil, false
+			}
+			e.body = b
+		case tar.TypeDir:
+			e.kind = "FDir"
+		case tar.TypeSymlink:
+			e.kind = "FSym"
+		case tar.TypeLink:
+			e.kind = "FLink"
+			e.link = h.Linkname
+		default:
+			e.kind = "FOther"
+		}
+		out = append(out, e)
+	}
+}
+
+// tables of digests and decodings handed to the model; member bytes and tar bytes are
+// replaced by short ids of fixed length, so a concatenation of members is the
+// concatenation of their ids
 type tables struct {
-	sha1   map[string][]byte
-	sha256 map[string][]byte
-	ids    map[string][]byte // raw member bytes -> short id
+	sha1, sha256 map[string][]byte
+	first        map[string]string // id -> term
+	ctl          map[string]string
+	gunzip       map[string]string
+	untar        map[string]string
+	ids          map[string][]byte // member bytes -> id
+	tarIDs       map[string][]byte
+	names        map[string]bool // names of regular files and hard links of everything served
+	bodies       map[string][]byte // file content -> id (contents are abstract for the model)
+}
+
+func newTables() *tables {
+	return &tables{sha1: map[string][]byte{}, sha256: map[string][]byte{}, first: map[string]string{}, ctl: map[string]string{},
+		gunzip: map[string]string{}, untar: map[string]string{}, ids: map[string][]byte{}, tarIDs: map[string][]byte{}, names: map[string]bool{}, bodies: map[string][]byte{}}
+}
+
+// the id of a file content; the SHA-1 row of a content is keyed by its id
+func (t *tables) body(b []byte) []byte {
+	if len(b) == 0 {
+		return nil
+	}
+	if v, ok := t.bodies[string(b)]; ok {
+		return v
+	}
+	v := []byte{253, byte(len(t.bodies) / 250), byte(len(t.bodies)%250 + 1)}
+	t.bodies[string(b)] = v
+	s := sha1.Sum(b) //nolint:gosec
+	t.sha1[string(v)] = s[:]
+	return v
 }
 
 func (t *tables) id(raw []byte) []byte {
@@ -95,74 +254,97 @@ func (t *tables) id(raw []byte) []byte {
 		return v
 	}
 	v := []byte{255, 0, byte(len(t.ids) + 1)}
+	if len(t.ids) >= 250 {
+		panic("too many members in one case")
+	}
 	t.ids[string(raw)] = v
+	// per-member rows
+	s1 := sha1.Sum(raw) //nolint:gosec
+	t.sha1[string(v)] = s1[:]
+	if n, ok := firstName(raw); ok {
+		t.first[string(v)] = "(Some " + gal.Str(n) + ")"
+	} else {
+		t.first[string(v)] = "None"
+	}
+	if d, dhs, ok := ctlView(raw); ok {
+		t.ctl[string(v)] = "(Some " + gal.Pair(gal.Str(d), gal.StrList(dhs)) + ")"
+	} else {
+		t.ctl[string(v)] = "None"
+	}
 	return v
 }
 
-func galSum(f *synthrepo.File) string {
-	if f.NoChecksum {
-		return "SumNone"
+// rows for a byte string that may be taken as data section (a suffix of the member list)
+func (t *tables) data(members [][]byte) {
+	var key, raw []byte
+	for _, m := range members {
+		key = append(key, t.id(m)...)
+		raw = append(raw, m...)
 	}
-	if f.RawChecksum != "" {
-		v := f.RawChecksum
-		var d []byte
-		var err error
-		if strings.HasPrefix(v, "Q1") {
-			d, err = base64.StdEncoding.DecodeString(strings.TrimPrefix(v, "Q1"))
+	if _, ok := t.gunzip[string(key)]; ok {
+		return
+	}
+	s2 := sha256.Sum256(raw)
+	t.sha256[string(key)] = s2[:]
+	tb, ok := gunzipAll(raw)
+	if !ok {
+		t.gunzip[string(key)] = "None"
+		return
+	}
+	tid, seen := t.tarIDs[string(tb)]
+	if !seen {
+		tid = []byte{254, 0, byte(len(t.tarIDs) + 1)}
+		t.tarIDs[string(tb)] = tid
+		es, ok := untar(tb)
+		if !ok {
+			t.untar[string(tid)] = "None"
 		} else {
-			d, err = hex.DecodeString(v)
+			var fs []string
+			for _, e := range es {
+				if e.kind == "FReg" && len(e.body) == 0 {
+					s := sha1.Sum(nil) //nolint:gosec
+					t.sha1[""] = s[:]
+				}
+				if e.kind == "FReg" || e.kind == "FLink" {
+					t.names[e.name] = true
+				}
+				fs = append(fs, fmt.Sprintf("{| f_name := %s; f_kind := %s; f_body := %s; f_sum := %s; f_link := %s |}",
+					gal.Str(e.name), e.kind, hb(t.body(e.body)), e.sum, gal.Str(e.link)))
+			}
+			t.untar[string(tid)] = "(Some " + gal.List(fs) + ")"
 		}
-		if err != nil {
-			return "SumBad"
-		}
-		return "(SumSome " + gal.Bytes(d) + ")"
 	}
-	body := f.Content
-	if f.Type == tar.TypeSymlink {
-		body = []byte(f.Linkname)
-	}
-	s := sha1.Sum(body) //nolint:gosec
-	if f.BadChecksum {
-		s[0] ^= 0xff
-	}
-	return "(SumSome " + gal.Bytes(s[:]) + ")"
+	t.gunzip[string(key)] = "(Some " + hb(tid) + ")"
 }
 
-func (t *tables) galApk(a *apkfile) string {
-	cid := t.id(a.ctlOf.Control)
-	s1 := sha1.Sum(a.ctlOf.Control) //nolint:gosec
-	t.sha1[string(cid)] = s1[:]
-	did := t.id(a.datOf.Data)
-	s2 := sha256.Sum256(a.datOf.Data)
-	t.sha256[string(did)] = s2[:]
-	var fs []string
-	for i := range a.datOf.Pkg.Files {
-		f := &a.datOf.Pkg.Files[i]
-		kind := "FReg"
-		body := f.Content
-		switch f.Type {
-		case tar.TypeDir:
-			kind = "FDir"
-		case tar.TypeSymlink:
-			kind = "FSym"
-			body = nil
-		}
-		if kind == "FReg" {
-			s := sha1.Sum(body) //nolint:gosec
-			t.sha1[string(body)] = s[:]
-		}
-		name := f.Name
-		if f.Type == tar.TypeDir && !strings.HasSuffix(name, "/") {
-			name += "/"
-		}
-		fs = append(fs, fmt.Sprintf("{| f_name := %s; f_kind := %s; f_body := %s; f_sum := %s |}", gal.Str(name), kind, gal.Bytes(body), galSum(f)))
+func (t *tables) galStream(s *served) string {
+	var ms []string
+	for _, m := range s.members {
+		ms = append(ms, hb(t.id(m)))
 	}
-	dhs := datahashValues(a.ctlOf.Control)
-	return fmt.Sprintf("{| a_ctl := {| c_raw := %s; c_desc := %s; c_datahash := %s |}; a_dat := {| d_raw := %s; d_files := %s |} |}",
-		gal.Bytes(cid), gal.Str(a.ctlOf.Pkg.Description), gal.StrList(dhs), gal.Bytes(did), gal.List(fs))
+	// the suffix ExpandApk takes as data section: everything after the control member, which is the second member
+	// behind a signature member (a first member starting with a .SIGN.* entry); for exactly two such members also the
+	// second one alone (what the cut took before fix 3bc1979)
+	if len(s.members) >= 2 {
+		signed := false
+		if n, ok := firstName(s.members[0]); ok && strings.HasPrefix(n, ".SIGN.") {
+			signed = true
+		}
+		switch {
+		case !signed || len(s.members) == 2:
+			t.data(s.members[1:])
+		default:
+			t.data(s.members[2:])
+		}
+	}
+	trail := "[]"
+	if len(s.trail) > 0 {
+		trail = "[0%N]" // only emptiness matters
+	}
+	return fmt.Sprintf("{| s_members := %s; s_trail := %s |}", gal.List(ms), trail)
 }
 
-func galTable(m map[string][]byte) string {
+func galBytesTable(m map[string][]byte) string {
 	keys := make([]string, 0, len(m))
 	for k := range m {
 		keys = append(keys, k)
@@ -170,7 +352,20 @@ func galTable(m map[string][]byte) string {
 	sort.Strings(keys)
 	var rows []string
 	for _, k := range keys {
-		rows = append(rows, gal.Pair(gal.Bytes([]byte(k)), gal.Bytes(m[k])))
+		rows = append(rows, gal.Pair(hb([]byte(k)), hb(m[k])))
+	}
+	return gal.List(rows)
+}
+
+func galTermTable(m map[string]string) string {
+	keys := make([]string, 0, len(m))
+	for k := range m {
+		keys = append(keys, k)
+	}
+	sort.Strings(keys)
+	var rows []string
+	for _, k := range keys {
+		rows = append(rows, gal.Pair(hb([]byte(k)), m[k]))
 	}
 	return gal.List(rows)
 }
@@ -178,13 +373,14 @@ func galTable(m map[string][]byte) string {
 // ---- steps ----------------------------------------------------------------------
 
 type step struct {
-	NewProcess bool     `json:"new_process"`
-	Cache      int      `json:"cache"` // -1 none, else directory number
-	Lazy       bool     `json:"lazy"`
-	Checksum   string   `json:"checksum"`
-	Serve      *apkfile `json:"serve"` // nil = nothing under the URL
-	Dir        string   `json:"dir,omitempty"` // repository directory name under the case root (default "repo")
-	RawURL     string   `json:"raw_url,omitempty"` // the handle's URL is <case root>/<RawURL>, nothing is served
+	NewProcess bool    `json:"new_process"`
+	Cache      int     `json:"cache"`              // -1 none, else directory number
+	DropTar    bool    `json:"drop_tar,omitempty"` // before the step every *.dat.tar of that cache directory is removed (a cache written before apko kept the uncompressed copy)
+	Lazy       bool    `json:"lazy"`
+	Checksum   string  `json:"checksum"`
+	Serve      *served `json:"serve"`             // nil = nothing under the URL
+	Dir        string  `json:"dir,omitempty"`     // repository directory name under the case root (default "repo")
+	RawURL     string  `json:"raw_url,omitempty"` // the handle's URL is <case root>/<RawURL>, nothing is served
 }
 
 type seqCase struct {
@@ -193,9 +389,10 @@ type seqCase struct {
 	// index-driven mode: a signed APKINDEX describing this build is written next to
 	// the package and the install goes InitKeyring / SetRepositories / SetWorld /
 	// FixateWorld (the handle is the resolver's RepositoryPackage)
-	ViaIndex bool             `json:"via_index,omitempty"`
+	ViaIndex bool `json:"via_index,omitempty"`
 	indexed  *synthrepo.Built
 	key      *synthrepo.Key
+	cell     string // variant family / history / install path, for the distribution
 }
 
 type observed struct {
@@ -215,7 +412,7 @@ func b64Row(chk string) string {
 	d, err := base64.StdEncoding.DecodeString(t)
 	r := "None"
 	if err == nil {
-		r = "(Some " + gal.Bytes(d) + ")"
+		r = "(Some " + hb(d) + ")"
 	}
 	return gal.Pair(gal.Str(t), r)
 }
@@ -227,30 +424,21 @@ func runCase(root string, n int, sc *seqCase) gal.Case {
 		panic(err)
 	}
 	defer os.RemoveAll(dir)
-	t := &tables{sha1: map[string][]byte{}, sha256: map[string][]byte{}, ids: map[string][]byte{}}
-	// every regular-file name any served package has
-	nameSet := map[string]bool{}
+	t := newTables()
+	// the model's view of every served stream (fills the tables, among them the names to read back)
+	galServed := map[*served]string{}
 	for _, s := range sc.Steps {
-		if s.Serve != nil && s.Serve.garbage == nil {
-			for _, f := range s.Serve.datOf.Pkg.Files {
-				if f.Type == 0 || f.Type == tar.TypeReg {
-					nameSet[f.Name] = true
-				}
+		if s.Serve != nil && s.RawURL == "" {
+			if _, ok := galServed[s.Serve]; !ok {
+				galServed[s.Serve] = t.galStream(s.Serve)
 			}
 		}
 	}
-	names := make([]string, 0, len(nameSet))
-	for k := range nameSet {
+	names := make([]string, 0, len(t.names))
+	for k := range t.names {
 		names = append(names, k)
 	}
-	// package order of the generators: ascending names, top-level dot files (when a package ships them late) after everything else
-	sort.Slice(names, func(i, j int) bool {
-		di, dj := strings.HasPrefix(names[i], "."), strings.HasPrefix(names[j], ".")
-		if di != dj {
-			return dj
-		}
-		return names[i] < names[j]
-	})
+	sort.Strings(names)
 
 	var steps []string
 	var b64rows []string
@@ -276,6 +464,14 @@ func runCase(root string, n int, sc *seqCase) gal.Case {
 			if err := os.WriteFile(url, s.Serve.bytes(), 0o644); err != nil {
 				panic(err)
 			}
+		}
+		if s.DropTar && s.Cache >= 0 {
+			_ = filepath.Walk(filepath.Join(dir, fmt.Sprintf("cache%d", s.Cache)), func(p string, fi os.FileInfo, err error) error {
+				if err == nil && strings.HasSuffix(p, ".dat.tar") {
+					os.Remove(p)
+				}
+				return nil
+			})
 		}
 		var fsys apkfs.FullFS
 		if s.Lazy {
@@ -349,19 +545,16 @@ func runCase(root string, n int, sc *seqCase) gal.Case {
 		if o.ok {
 			var fl []string
 			for _, f := range o.files {
-				fl = append(fl, gal.Pair(gal.Str(f[0]), gal.Bytes([]byte(f[1]))))
+				fl = append(fl, gal.Pair(gal.Str(f[0]), hb(t.body([]byte(f[1])))))
 			}
 			out = "(Some " + gal.Pair(gal.Str(o.desc), gal.List(fl)) + ")"
 			class += "I"
 		} else {
 			class += "E"
 		}
-		served := "None"
+		srv := "None"
 		if s.Serve != nil && s.RawURL == "" {
-			if s.Serve.garbage != nil {
-				panic("garbage origins are not part of the modelled envelope")
-			}
-			served = "(Some " + t.galApk(s.Serve) + ")"
+			srv = "(Some " + galServed[s.Serve] + ")"
 		}
 		cache := "None"
 		if s.Cache >= 0 {
@@ -371,12 +564,18 @@ func runCase(root string, n int, sc *seqCase) gal.Case {
 			b64seen[s.Checksum] = true
 			b64rows = append(b64rows, b64Row(s.Checksum))
 		}
-		steps = append(steps, fmt.Sprintf("{| s_new_process := %s; s_cache := %s; s_lazy := %s; s_handle := %s; s_served := %s; o_out := %s |}",
-			gal.Bool(s.NewProcess), cache, gal.Bool(s.Lazy), galHandle(url, s.Checksum), served, out))
+		steps = append(steps, fmt.Sprintf("{| s_new_process := %s; s_cache := %s; s_drop_tar := %s; s_lazy := %s; s_handle := %s; s_served := %s; o_out := %s |}",
+			gal.Bool(s.NewProcess), cache, gal.Bool(s.DropTar), gal.Bool(s.Lazy), galHandle(strings.TrimPrefix(url, dir+"/"), s.Checksum), srv, out))
 	}
-	term := fmt.Sprintf("{| q_sha1 := %s; q_sha256 := %s; q_b64 := %s; q_steps := %s |}", galTable(t.sha1), galTable(t.sha256), gal.List(b64rows), gal.List(steps))
+	term := fmt.Sprintf("{| q_sha1 := %s; q_sha256 := %s; q_b64 := %s; q_first := %s; q_ctl := %s; q_gunzip := %s; q_untar := %s; q_steps := %s |}",
+		galBytesTable(t.sha1), galBytesTable(t.sha256), gal.List(b64rows), galTermTable(t.first), galTermTable(t.ctl),
+		galTermTable(t.gunzip), galTermTable(t.untar), gal.List(steps))
 	// replay description without temp names
-	return gal.Case{Term: term, Desc: sc, Class: class, Key: sc.Label + "|" + class}
+	cls := class
+	if sc.cell != "" {
+		cls = sc.cell + ":" + class
+	}
+	return gal.Case{Term: term, Desc: sc, Class: cls, Key: sc.Label + "|" + class}
 }
 
 // ---- generators -------------------------------------------------------------------
@@ -389,6 +588,14 @@ type gen struct {
 func (g *gen) build(p *synthrepo.Pkg) *synthrepo.Built {
 	p.Name, p.Version = "pkg", "1.0-r0"
 	b, err := p.Build(g.key)
+	if err != nil {
+		panic(err)
+	}
+	return b
+}
+
+func seg(entries []synthrepo.File, withEOA, pax bool) []byte {
+	b, err := synthrepo.Segment(entries, withEOA, pax)
 	if err != nil {
 		panic(err)
 	}
@@ -408,10 +615,22 @@ func files(marker string, extra ...synthrepo.File) []synthrepo.File {
 }
 
 type variant struct {
-	name  string
-	index *synthrepo.Built // what the index entry describes
-	chk   string           // checksum string of the handle ("" = index.Checksum())
-	serve *apkfile         // what the origin serves instead
+	family string           // what kind of alteration (distribution)
+	name   string
+	index  *synthrepo.Built // what the index entry describes (nil: no well-formed build does; not usable behind a real index)
+	idx    *served          // the stream a genuine origin serves for this index entry
+	chk    string           // checksum string of the handle
+	serve  *served          // what the origin serves instead
+}
+
+func sha1sum(b []byte) []byte { s := sha1.Sum(b); return s[:] } //nolint:gosec
+func q1(member []byte) string { return "Q1" + base64.StdEncoding.EncodeToString(sha1sum(member)) }
+func hex256(bs ...[]byte) string {
+	h := sha256.New()
+	for _, b := range bs {
+		h.Write(b)
+	}
+	return hex.EncodeToString(h.Sum(nil))
 }
 
 func (g *gen) variants(tag string) []variant {
@@ -423,107 +642,224 @@ func (g *gen) variants(tag string) []variant {
 		return g.build(p)
 	}
 	G := mk("genuine", "G", nil)
-	whole := func(label string, b *synthrepo.Built) *apkfile { return &apkfile{Label: label, ctlOf: b, datOf: b} }
 	var vs []variant
-	add := func(name string, index *synthrepo.Built, chk string, serve *apkfile) {
-		vs = append(vs, variant{name, index, chk, serve})
+	// a substitution relative to a well-formed indexed build
+	add := func(family, name string, index *synthrepo.Built, chk string, serve *served) {
+		if chk == "" {
+			chk = index.Checksum()
+		} else if chk == "<empty>" {
+			chk = ""
+		}
+		vs = append(vs, variant{family, name, index, whole("as indexed", index), chk, serve})
 	}
-	add("genuine", G, "", whole("genuine", G))
+	// an arbitrary stream behind an arbitrary checksum string
+	addS := func(family, name string, idx *served, chk string, serve *served) {
+		vs = append(vs, variant{family, name, nil, idx, chk, serve})
+	}
+	add("genuine", "genuine", G, "", whole("genuine", G))
 	// same files, other control bytes
 	Gc := mk("other-control", "G", nil)
-	add("swapped control", G, "", &apkfile{Label: "control of another build + genuine data", ctlOf: Gc, datOf: G})
+	add("swap", "swapped control", G, "", mix("control of another build + genuine data", Gc, G))
 	X := mk("evil", "X", nil)
-	add("swapped data", G, "", &apkfile{Label: "genuine control + data of another package", ctlOf: G, datOf: X})
-	add("different package under the URL", G, "", whole("another, internally consistent package", X))
+	add("swap", "swapped data", G, "", mix("genuine control + data of another package", G, X))
+	add("swap", "different package under the URL", G, "", whole("another, internally consistent package", X))
 	// a file body altered, recorded checksum left alone
 	Mb := mk("rebuilt-body", "G", func(p *synthrepo.Pkg) {
 		p.Files[3].Content = []byte("#!/bin/sh\necho tampered\n")
 		p.Files[3].RawChecksum = hex.EncodeToString(sha1sum([]byte("#!/bin/sh\necho G/" + tag + "\n")))
 	})
-	add("modified file body", G, "", &apkfile{Label: "genuine control + data with one body altered", ctlOf: G, datOf: Mb})
-	add("modified file body, whole package rebuilt", G, "", whole("package rebuilt around an altered body", Mb))
+	add("file", "modified file body", G, "", mix("genuine control + data with one body altered", G, Mb))
+	add("file", "modified file body, whole package rebuilt", G, "", whole("package rebuilt around an altered body", Mb))
 	// two regular files of one length: genuinely identical copies (fine), and a second
 	// file whose header BORROWS the recorded checksum of the first while its body differs
 	// (a per-package "already verified this digest" shortcut would let it through)
 	Dup := mk("twin-files", "G", func(p *synthrepo.Pkg) {
 		p.Files = append(p.Files, synthrepo.File{Name: "usr/tool.copy", Mode: 0o755, Content: []byte("#!/bin/sh\necho G/" + tag + "\n")})
 	})
-	add("indexed package ships two identical files", Dup, "", whole("as indexed", Dup))
+	add("file", "indexed package ships two identical files", Dup, "", whole("as indexed", Dup))
 	Bor := mk("borrowed-sum", "G", func(p *synthrepo.Pkg) {
 		body := []byte("#!/bin/sh\necho G/" + tag + "\n")
 		alt := append([]byte{}, body...)
 		alt[len(alt)-2] ^= 1
 		p.Files = append(p.Files, synthrepo.File{Name: "usr/tool.copy", Mode: 0o755, Content: alt, RawChecksum: hex.EncodeToString(sha1sum(body))})
 	})
-	add("second file borrows the recorded checksum of an earlier file of the same length", Dup, "", &apkfile{Label: "genuine control + data whose second copy is altered under the first copy's checksum", ctlOf: Dup, datOf: Bor})
-	add("indexed package: second file borrows the checksum of an earlier one", Bor, "", whole("as indexed", Bor))
+	add("file", "second file borrows the recorded checksum of an earlier file of the same length", Dup, "", mix("genuine control + data whose second copy is altered under the first copy's checksum", Dup, Bor))
+	add("file", "indexed package: second file borrows the checksum of an earlier one", Bor, "", whole("as indexed", Bor))
 	Mc := mk("bad-sum", "G", func(p *synthrepo.Pkg) { p.Files[3].BadChecksum = true })
-	add("modified per-file checksum", G, "", &apkfile{Label: "genuine control + data with one recorded checksum altered", ctlOf: G, datOf: Mc})
+	add("file", "modified per-file checksum", G, "", mix("genuine control + data with one recorded checksum altered", G, Mc))
 	Nc := mk("no-sum", "G", func(p *synthrepo.Pkg) { p.Files[3].NoChecksum = true })
-	add("missing per-file checksum", G, "", &apkfile{Label: "genuine control + data with one checksum record removed", ctlOf: G, datOf: Nc})
+	add("file", "missing per-file checksum", G, "", mix("genuine control + data with one checksum record removed", G, Nc))
 	// the index itself describes such packages
-	add("indexed package has a wrong per-file checksum", Mc, "", whole("as indexed", Mc))
-	add("indexed package lacks a per-file checksum", Nc, "", whole("as indexed", Nc))
+	add("file", "indexed package has a wrong per-file checksum", Mc, "", whole("as indexed", Mc))
+	add("file", "indexed package lacks a per-file checksum", Nc, "", whole("as indexed", Nc))
 	Uc := mk("undecodable-sum", "U", func(p *synthrepo.Pkg) { p.Files[3].RawChecksum = "zz" })
-	add("indexed package has an undecodable per-file checksum", Uc, "", whole("as indexed", Uc))
+	add("file", "indexed package has an undecodable per-file checksum", Uc, "", whole("as indexed", Uc))
 	Q1 := mk("q1-sum", "Q", func(p *synthrepo.Pkg) { p.Files[3].Q1Checksum = true })
-	add("indexed package records per-file checksums as Q1+base64", Q1, "", whole("as indexed", Q1))
+	add("file", "indexed package records per-file checksums as Q1+base64", Q1, "", whole("as indexed", Q1))
 	Sy := mk("symlinks", "S", func(p *synthrepo.Pkg) {
 		p.Files = append(p.Files, synthrepo.File{Name: "usr/zlink", Type: tar.TypeSymlink, Linkname: "tool", Mode: 0o777},
 			synthrepo.File{Name: "usr/zlink2", Type: tar.TypeSymlink, Linkname: "tool", Mode: 0o777, NoChecksum: true})
 	})
-	add("indexed package has a symlink without checksum", Sy, "", whole("as indexed", Sy))
+	add("links", "indexed package has a symlink without checksum", Sy, "", whole("as indexed", Sy))
+	// hard links: both install paths link the new name to whatever the target name holds; no checksum is involved,
+	// the link's target name is covered by the data hash only
+	Hk := mk("hardlink", "K", func(p *synthrepo.Pkg) {
+		p.Files = append(p.Files, synthrepo.File{Name: "usr/tool.ln", Type: tar.TypeLink, Linkname: "usr/tool", Mode: 0o755},
+			synthrepo.File{Name: "usr/tool.ln2", Type: tar.TypeLink, Linkname: "usr/tool.ln", Mode: 0o755})
+	})
+	add("links", "indexed package has hard links (to a file, to a link)", Hk, "", whole("as indexed", Hk))
+	HkR := mk("hardlink-retargeted", "K", func(p *synthrepo.Pkg) {
+		p.Files = append(p.Files, synthrepo.File{Name: "usr/tool.ln", Type: tar.TypeLink, Linkname: "etc/marker", Mode: 0o755},
+			synthrepo.File{Name: "usr/tool.ln2", Type: tar.TypeLink, Linkname: "usr/tool.ln", Mode: 0o755})
+	})
+	add("links", "hard link retargeted, data swapped in", Hk, "", mix("genuine control + data whose hard link points at another file", Hk, HkR))
+	HkNd := mk("hardlink-no-datahash", "K", func(p *synthrepo.Pkg) {
+		p.NoDatahash = true
+		p.Files = append(p.Files, synthrepo.File{Name: "usr/tool.ln", Type: tar.TypeLink, Linkname: "usr/tool", Mode: 0o755},
+			synthrepo.File{Name: "usr/tool.ln2", Type: tar.TypeLink, Linkname: "usr/tool.ln", Mode: 0o755})
+	})
+	add("links", "no datahash recorded, hard link retargeted", HkNd, "", mix("control without datahash + data whose hard link points at another file", HkNd, HkR))
+	HkM := mk("hardlink-missing-target", "K", func(p *synthrepo.Pkg) {
+		p.Files = append(p.Files, synthrepo.File{Name: "usr/tool.ln", Type: tar.TypeLink, Linkname: "usr/absent", Mode: 0o755})
+	})
+	add("links", "indexed package has a hard link to a name it does not ship", HkM, "", whole("as indexed", HkM))
+	HkF := mk("hardlink-before-target", "K", func(p *synthrepo.Pkg) {
+		p.Files = append(p.Files[:3:3], append([]synthrepo.File{{Name: "usr/a.ln", Type: tar.TypeLink, Linkname: "usr/tool", Mode: 0o755}}, p.Files[3:]...)...)
+	})
+	add("links", "indexed package has a hard link that precedes its target", HkF, "", whole("as indexed", HkF))
+	Dv := mk("device", "D", func(p *synthrepo.Pkg) {
+		p.Files = append(p.Files, synthrepo.File{Name: "usr/null", Type: tar.TypeChar, Devmajor: 1, Devminor: 3, Mode: 0o666})
+	})
+	add("links", "indexed package ships a character device", Dv, "", whole("as indexed", Dv))
 	Wd := mk("wrong-datahash", "W", func(p *synthrepo.Pkg) { p.WrongDatahash = true })
-	add("indexed package records a wrong datahash", Wd, "", whole("as indexed", Wd))
+	add("datahash", "indexed package records a wrong datahash", Wd, "", whole("as indexed", Wd))
 	Nd := mk("no-datahash", "N", func(p *synthrepo.Pkg) { p.NoDatahash = true })
-	add("indexed package records no datahash", Nd, "", whole("as indexed", Nd))
-	add("no datahash recorded, data swapped", Nd, "", &apkfile{Label: "control without datahash + data of another package", ctlOf: Nd, datOf: X})
+	add("datahash", "indexed package records no datahash", Nd, "", whole("as indexed", Nd))
+	add("datahash", "no datahash recorded, data swapped", Nd, "", mix("control without datahash + data of another package", Nd, X))
 	Ed := mk("empty-datahash", "E", func(p *synthrepo.Pkg) { p.NoDatahash = true; p.PkginfoExtra = "datahash = \n" })
-	add("indexed package records an empty datahash", Ed, "", whole("as indexed", Ed))
-	add("empty datahash recorded, data swapped", Ed, "", &apkfile{Label: "control with empty datahash + data of another package", ctlOf: Ed, datOf: X})
+	add("datahash", "indexed package records an empty datahash", Ed, "", whole("as indexed", Ed))
+	add("datahash", "empty datahash recorded, data swapped", Ed, "", mix("control with empty datahash + data of another package", Ed, X))
 	Td := mk("two-datahash", "T", func(p *synthrepo.Pkg) { p.PkginfoExtra = "datahash = " + strings.Repeat("00", 32) + "\n" })
-	add("indexed package records two datahash values, one wrong", Td, "", whole("as indexed", Td))
+	add("datahash", "indexed package records two datahash values, one wrong", Td, "", whole("as indexed", Td))
+	Ud := mk("uppercase-datahash", "UD", func(p *synthrepo.Pkg) { p.NoDatahash = true })
+	{ // the right digest in upper case: compared as text with the lower-case hex of the computed one
+		p := *Ud.Pkg
+		p.PkginfoExtra = "datahash = " + strings.ToUpper(hex.EncodeToString(Ud.DataSHA256)) + "\n"
+		c := seg([]synthrepo.File{{Name: ".PKGINFO", Mode: 0o644, Content: p.Pkginfo("", Ud.InstalledSize)}}, false, false)
+		addS("datahash", "datahash in upper-case hex", stream("as indexed", c, Ud.Data), q1(c), stream("as indexed", c, Ud.Data))
+	}
 	Hd := mk("hidden-first", "H", func(p *synthrepo.Pkg) {
 		p.Files = append([]synthrepo.File{{Name: ".hidden", Mode: 0o644, Content: []byte("h")}}, p.Files...)
 	})
-	add("indexed package starts with a hidden top-level file", Hd, "", whole("as indexed", Hd))
+	add("hidden", "indexed package starts with a hidden top-level file", Hd, "", whole("as indexed", Hd))
 	// a top-level dot file AFTER other entries is an ordinary packaged file (only the leading run of such names is skipped by the
 	// installer): installed, and its body is held to its recorded checksum like any other (seeded change C05-4)
 	Hl := mk("hidden-later", "L", func(p *synthrepo.Pkg) {
 		p.Files = append(p.Files, synthrepo.File{Name: ".profile", Mode: 0o644, Content: []byte("export L=1\n")})
 	})
-	add("indexed package ends with a top-level dot file", Hl, "", whole("as indexed", Hl))
+	add("hidden", "indexed package ends with a top-level dot file", Hl, "", whole("as indexed", Hl))
 	HlBad := mk("hidden-later-altered", "L", func(p *synthrepo.Pkg) {
 		p.Files = append(p.Files, synthrepo.File{Name: ".profile", Mode: 0o644, Content: []byte("export L=2\n"), RawChecksum: hex.EncodeToString(sha1sum([]byte("export L=1\n")))})
 	})
-	add("late top-level dot file altered under its recorded checksum, data swapped in", Hl, "", &apkfile{Label: "genuine control + data whose late dot file is altered", ctlOf: Hl, datOf: HlBad})
-	add("indexed package: late top-level dot file does not match its recorded checksum", HlBad, "", whole("as indexed", HlBad))
+	add("hidden", "late top-level dot file altered under its recorded checksum, data swapped in", Hl, "", mix("genuine control + data whose late dot file is altered", Hl, HlBad))
+	add("hidden", "indexed package: late top-level dot file does not match its recorded checksum", HlBad, "", whole("as indexed", HlBad))
 	HlNd := mk("hidden-later-altered-no-datahash", "L", func(p *synthrepo.Pkg) {
 		p.NoDatahash = true
 		p.Files = append(p.Files, synthrepo.File{Name: ".profile", Mode: 0o644, Content: []byte("export L=3\n"), RawChecksum: hex.EncodeToString(sha1sum([]byte("export L=1\n")))})
 	})
-	add("indexed package without datahash: late dot file does not match its recorded checksum", HlNd, "", whole("as indexed", HlNd))
+	add("hidden", "indexed package without datahash: late dot file does not match its recorded checksum", HlNd, "", whole("as indexed", HlNd))
 	// handle checksum shapes
-	add("handle checksum without the Q1 prefix", G, strings.TrimPrefix(G.Checksum(), "Q1"), whole("genuine", G))
-	add("handle checksum without Q1, different package served", G, strings.TrimPrefix(G.Checksum(), "Q1"), whole("another package", X))
-	add("handle checksum is not base64", G, "Q1!!!not-base64!!!", whole("genuine", G))
-	add("handle checksum with a doubled Q1 prefix", G, "Q1"+G.Checksum(), whole("genuine", G))
-	add("handle checksum empty", G, "<empty>", whole("genuine", G))
-	add("handle checksum of another package (index updated), genuine served", X, "", whole("genuine", G))
-	add("nothing under the URL", G, "", nil)
-	return vs
-}
+	add("handle", "handle checksum without the Q1 prefix", G, strings.TrimPrefix(G.Checksum(), "Q1"), whole("genuine", G))
+	add("handle", "handle checksum without Q1, different package served", G, strings.TrimPrefix(G.Checksum(), "Q1"), whole("another package", X))
+	add("handle", "handle checksum is not base64", G, "Q1!!!not-base64!!!", whole("genuine", G))
+	add("handle", "handle checksum with a doubled Q1 prefix", G, "Q1"+G.Checksum(), whole("genuine", G))
+	add("handle", "handle checksum empty", G, "<empty>", whole("genuine", G))
+	add("handle", "handle checksum of another package (index updated), genuine served", X, "", whole("genuine", G))
+	add("handle", "nothing under the URL", G, "", nil)
 
-func sha1sum(b []byte) []byte { s := sha1.Sum(b); return s[:] } //nolint:gosec
-
-func (v *variant) checksum() string {
-	switch v.chk {
-	case "":
-		return v.index.Checksum()
-	case "<empty>":
-		return ""
+	// ---- the shape of the served stream: which gzip members, what follows them ------------------------
+	gw := whole("genuine", G)
+	addS("stream", "unsigned: control and data member only", gw, G.Checksum(), stream("genuine without signature member", G.Control, G.Data))
+	addS("stream", "unsigned, data of another package", gw, G.Checksum(), stream("genuine control + data of another package, no signature member", G.Control, X.Data))
+	addS("stream", "512 zero bytes after the data member", gw, G.Checksum(), gw.withTrail(make([]byte, 512)))
+	addS("stream", "one byte after the data member", gw, G.Checksum(), gw.withTrail([]byte{0}))
+	addS("stream", "text after the data member", gw, G.Checksum(), gw.withTrail([]byte("trailing bytes that are no gzip member")))
+	addS("stream", "truncated gzip member after the data member", gw, G.Checksum(), gw.withTrail(X.Data[:len(X.Data)/2]))
+	addS("stream", "truncated: signature and control member only", gw, G.Checksum(), stream("genuine without data member", G.Sig, G.Control))
+	addS("stream", "truncated: signature and control member only, handle records the signature member", stream("genuine without data member", G.Sig, G.Control), q1(G.Sig), stream("genuine without data member", G.Sig, G.Control))
+	addS("stream", "control member only", gw, G.Checksum(), stream("control member alone", G.Control))
+	addS("stream", "signature member only", gw, G.Checksum(), stream("signature member alone", G.Sig))
+	addS("stream", "empty file", gw, G.Checksum(), stream("no bytes"))
+	addS("stream", "no gzip member at all", gw, G.Checksum(), stream("text").withTrail([]byte("this is not an apk")))
+	addS("stream", "two signature members", gw, G.Checksum(), stream("signature twice, control, data", G.Sig, G.Sig, G.Control, G.Data))
+	addS("stream", "data member of another package appended", gw, G.Checksum(), stream("genuine + one more data member", G.Sig, G.Control, G.Data, X.Data))
+	addS("stream", "empty gzip member appended", gw, G.Checksum(), stream("genuine + an empty gzip member", G.Sig, G.Control, G.Data, seg(nil, false, false)))
+	addS("stream", "data member doubled", gw, G.Checksum(), stream("genuine with the data member twice", G.Sig, G.Control, G.Data, G.Data))
+	addS("stream", "control member doubled", gw, G.Checksum(), stream("signature, control, control, data", G.Sig, G.Control, G.Control, G.Data))
+	{ // a data section split over two members (first without end-of-archive marker), datahash over both
+		p := &synthrepo.Pkg{Name: "pkg", Version: "1.0-r0", Arch: "x86_64", Description: "split-data/" + tag}
+		fs := files("P/" + tag)
+		d1, d2 := seg(fs[:2], false, true), seg(fs[2:], true, true)
+		c := seg([]synthrepo.File{{Name: ".PKGINFO", Mode: 0o644, Content: p.Pkginfo(hex256(d1, d2), 0)}}, false, false)
+		split := stream("control + data section in two members", c, d1, d2)
+		addS("stream", "indexed package: data section split over two members", split, q1(c), split)
+		addS("stream", "split data section, second half missing", split, q1(c), stream("control + first half of the data section", c, d1))
+		addS("stream", "split data section, halves swapped", split, q1(c), stream("control + second half, first half", c, d2, d1))
+		addS("stream", "split data section behind a signature member", split, q1(c), stream("signature + control + data section in two members", G.Sig, c, d1, d2))
+		// a member after the end-of-archive marker: hashed (the datahash covers it), never read as entries
+		after := seg([]synthrepo.File{{Name: "usr/after", Mode: 0o644, Content: []byte("after the end-of-archive marker")}}, true, true)
+		c2 := seg([]synthrepo.File{{Name: ".PKGINFO", Mode: 0o644, Content: p.Pkginfo(hex256(d1, d2, after), 0)}}, false, false)
+		three := stream("control + data section in two members + a member after the end-of-archive marker", c2, d1, d2, after)
+		addS("stream", "indexed package: a member after the end-of-archive marker", three, q1(c2), three)
+		// control section whose first entry is a script, .PKGINFO second
+		c3 := seg([]synthrepo.File{{Name: ".pre-install", Mode: 0o755, Content: []byte("#!/bin/sh\n")}, {Name: ".PKGINFO", Mode: 0o644, Content: p.Pkginfo(hex256(d1, d2), 0)}}, false, false)
+		scr := stream("control starting with a script", c3, d1, d2)
+		addS("stream", "indexed package: control section starts with a script", scr, q1(c3), scr)
+		// control section without .PKGINFO, control member that is an empty tar, data section that is no tar
+		c4 := seg([]synthrepo.File{{Name: ".pre-install", Mode: 0o755, Content: []byte("#!/bin/sh\n")}}, false, false)
+		addS("stream", "control section without .PKGINFO", stream("as indexed", c4, d1, d2), q1(c4), stream("as indexed", c4, d1, d2))
+		c5 := seg(nil, false, false)
+		addS("stream", "control member is an empty archive", stream("as indexed", c5, d1, d2), q1(c5), stream("as indexed", c5, d1, d2))
+		junk, err := synthrepo.Gz([]byte(strings.Repeat("not a tar archive ", 64)))
+		if err != nil {
+			panic(err)
+		}
+		c6 := seg([]synthrepo.File{{Name: ".PKGINFO", Mode: 0o644, Content: p.Pkginfo(hex256(junk), 0)}}, false, false)
+		addS("stream", "data section is not a tar archive", stream("as indexed", c6, junk), q1(c6), stream("as indexed", c6, junk))
 	}
-	return v.chk
+	// ---- fixed C05-F3 replays: exactly two members, the first starting with a .SIGN.* entry (refused since fix 3bc1979;
+	// before, the first member was taken for the control section, the second — SHA-1, no per-file check — for the data section)
+	for _, bad := range []bool{false, true} {
+		fs := files("F3/" + tag)
+		what := "files as recorded"
+		if bad {
+			fs[3].BadChecksum = true
+			what = "one body disagrees with its recorded checksum"
+		}
+		dat := seg(fs, true, true)
+		for _, dhk := range []string{"sha1", "sha256", "none"} {
+			p := &synthrepo.Pkg{Name: "pkg", Version: "1.0-r0", Arch: "x86_64", Description: "sign-first-" + dhk + "/" + tag}
+			dh := ""
+			switch dhk {
+			case "sha1":
+				dh = hex.EncodeToString(sha1sum(dat))
+			case "sha256":
+				dh = hex256(dat)
+			case "none":
+				p.NoDatahash = true
+			}
+			c := seg([]synthrepo.File{{Name: ".SIGN.RSA.nobody.rsa.pub", Mode: 0o644, Content: []byte("no signature")},
+				{Name: ".PKGINFO", Mode: 0o644, Content: p.Pkginfo(dh, 0)}}, false, false)
+			s2 := stream("control member starting with a .SIGN.* entry + data member", c, dat)
+			addS("sign-first", "fixed C05-F3 replay: two members, the first starts with a .SIGN.* entry; datahash "+dhk+"; "+what, s2, q1(c), s2)
+			if dhk == "sha256" {
+				// the same two members behind a real signature member are an ordinary package
+				s3 := stream("signature + control member starting with a .SIGN.* entry + data member", G.Sig, c, dat)
+				addS("sign-first", "control member starting with a .SIGN.* entry behind a signature member; "+what, s3, q1(c), s3)
+			}
+		}
+	}
+	return vs
 }
 
 func main() {
@@ -546,84 +882,89 @@ func main() {
 	r := gal.NewRand(*seed)
 	wr := &gal.Writer{Dir: *out, Require: "From Apko Require Import Corr.C05.", Type: "seq_case", Check: "check_seq", Shard: 60}
 	n := 0
+	cells := map[string]int{}
 	run := func(sc *seqCase) {
 		wr.Add(runCase(root, n, sc))
 		n++
 	}
 	vs := g.variants("corpus")
 	genuine := vs[0]
+	families := map[string]bool{}
 	for _, lazy := range []bool{true, false} {
 		lz := map[bool]string{true: "lazy", false: "streaming"}[lazy]
 		for vi := range vs {
 			v := &vs[vi]
-			st := func(newp bool, cache int, chk string, serve *apkfile) step {
-				return step{NewProcess: newp, Cache: cache, Lazy: lazy, Checksum: chk, Serve: serve}
+			families[v.family] = true
+			st := func(newp bool, cache int, serve *served) step {
+				return step{NewProcess: newp, Cache: cache, Lazy: lazy, Checksum: v.chk, Serve: serve}
+			}
+			cell := func(history string, steps ...step) {
+				c := v.family + "/" + history + "/" + lz
+				cells[v.name+"/"+history+"/"+lz]++
+				run(&seqCase{Label: v.name + " / " + history + " / " + lz, Steps: steps, cell: c})
 			}
 			// cache disabled
-			run(&seqCase{Label: v.name + " / no cache / " + lz, Steps: []step{st(true, -1, v.checksum(), v.serve)}})
+			cell("no cache", st(true, -1, v.serve))
 			// cold cache, then the same request again in a new process (warm or still cold)
-			run(&seqCase{Label: v.name + " / cold, then again in a new process / " + lz, Steps: []step{
-				st(true, 0, v.checksum(), v.serve), st(true, 0, v.checksum(), v.serve)}})
+			cell("cold, then again in a new process", st(true, 0, v.serve), st(true, 0, v.serve))
 			// warm: a previous process cached what the index describes; now the origin serves the variant
-			idx := &apkfile{Label: "as indexed", ctlOf: v.index, datOf: v.index}
-			run(&seqCase{Label: v.name + " / warm cache from an earlier process / " + lz, Steps: []step{
-				st(true, 0, v.checksum(), idx), st(true, 0, v.checksum(), v.serve), st(true, -1, v.checksum(), v.serve)}})
+			cell("warm cache from an earlier process", st(true, 0, v.idx), st(true, 0, v.serve), st(true, -1, v.serve))
+			// warm, but the cache holds no uncompressed tar (written by an older apko, or pruned): rebuilt from the .dat.tar.gz
+			dropped := st(true, 0, v.serve)
+			dropped.DropTar = true
+			cell("warm cache without the uncompressed tar", st(true, 0, v.idx), dropped, st(true, 0, v.serve))
 			// substituted bytes first (must not poison the cache), then the origin is repaired, new process
-			run(&seqCase{Label: v.name + " / variant first, origin repaired, new process / " + lz, Steps: []step{
-				st(true, 0, v.checksum(), v.serve), st(true, 0, v.checksum(), idx)}})
+			cell("variant first, origin repaired, new process", st(true, 0, v.serve), st(true, 0, v.idx))
 			// same process: second request for the same URL (memo)
-			run(&seqCase{Label: v.name + " / same request twice in one process / " + lz, Steps: []step{
-				st(true, 0, v.checksum(), v.serve), st(false, 0, v.checksum(), idx)}})
+			cell("same request twice in one process", st(true, 0, v.serve), st(false, 0, v.idx))
 		}
 		// C05-F1: one process, the URL is republished: index and origin both move to another build
 		other := vs[3] // "different package under the URL": serve = X whole
 		xIdx := other.serve
-		run(&seqCase{Label: "fixed C05-F1 replay: URL republished within one process (fresh cache dir) / " + lz, Steps: []step{
-			{NewProcess: true, Cache: 0, Lazy: lazy, Checksum: genuine.checksum(), Serve: genuine.serve},
-			{NewProcess: false, Cache: 1, Lazy: lazy, Checksum: xIdx.ctlOf.Checksum(), Serve: xIdx}}})
+		xChk := q1(xIdx.members[1])
+		run(&seqCase{Label: "fixed C05-F1 replay: URL republished within one process (fresh cache dir) / " + lz, cell: "memo/republished/" + lz, Steps: []step{
+			{NewProcess: true, Cache: 0, Lazy: lazy, Checksum: genuine.chk, Serve: genuine.serve},
+			{NewProcess: false, Cache: 1, Lazy: lazy, Checksum: xChk, Serve: xIdx}}})
 		// C05-F2: the memo key URL+"@"+checksum is ambiguous when either part contains '@'
-		run(&seqCase{Label: "fixed C05-F2 replay: memo key ambiguity: (dir 'r@x', Q1<G>) then (dir 'r', 'x/x86_64/pkg-1.0-r0.apk@Q1<G>') / " + lz, Steps: []step{
-			{NewProcess: true, Cache: 0, Lazy: lazy, Checksum: genuine.checksum(), Serve: genuine.serve, Dir: "r@x"},
-			{NewProcess: false, Cache: 0, Lazy: lazy, Checksum: "x/x86_64/pkg-1.0-r0.apk@" + genuine.checksum(), RawURL: "r"}}})
-		run(&seqCase{Label: "URL republished, new process / " + lz, Steps: []step{
-			{NewProcess: true, Cache: 0, Lazy: lazy, Checksum: genuine.checksum(), Serve: genuine.serve},
-			{NewProcess: true, Cache: 0, Lazy: lazy, Checksum: xIdx.ctlOf.Checksum(), Serve: xIdx}}})
-		run(&seqCase{Label: "URL republished within one process, cache disabled / " + lz, Steps: []step{
-			{NewProcess: true, Cache: -1, Lazy: lazy, Checksum: genuine.checksum(), Serve: genuine.serve},
-			{NewProcess: false, Cache: -1, Lazy: lazy, Checksum: xIdx.ctlOf.Checksum(), Serve: xIdx}}})
+		run(&seqCase{Label: "fixed C05-F2 replay: memo key ambiguity: (dir 'r@x', Q1<G>) then (dir 'r', 'x/x86_64/pkg-1.0-r0.apk@Q1<G>') / " + lz, cell: "memo/key-ambiguity/" + lz, Steps: []step{
+			{NewProcess: true, Cache: 0, Lazy: lazy, Checksum: genuine.chk, Serve: genuine.serve, Dir: "r@x"},
+			{NewProcess: false, Cache: 0, Lazy: lazy, Checksum: "x/x86_64/pkg-1.0-r0.apk@" + genuine.chk, RawURL: "r"}}})
+		run(&seqCase{Label: "URL republished, new process / " + lz, cell: "memo/republished/" + lz, Steps: []step{
+			{NewProcess: true, Cache: 0, Lazy: lazy, Checksum: genuine.chk, Serve: genuine.serve},
+			{NewProcess: true, Cache: 0, Lazy: lazy, Checksum: xChk, Serve: xIdx}}})
+		run(&seqCase{Label: "URL republished within one process, cache disabled / " + lz, cell: "memo/republished/" + lz, Steps: []step{
+			{NewProcess: true, Cache: -1, Lazy: lazy, Checksum: genuine.chk, Serve: genuine.serve},
+			{NewProcess: false, Cache: -1, Lazy: lazy, Checksum: xChk, Serve: xIdx}}})
 	}
 	// the same substitutions behind a real signed index, through the resolver
 	for _, lazy := range []bool{true, false} {
 		lz := map[bool]string{true: "lazy", false: "streaming"}[lazy]
 		for vi := range vs {
 			v := &vs[vi]
-			if v.chk != "" {
+			if v.index == nil || v.chk != v.index.Checksum() {
 				continue // the checksum string is whatever the index parser produces
 			}
-			chk := v.index.Checksum()
-			idx := &apkfile{Label: "as indexed", ctlOf: v.index, datOf: v.index}
-			run(&seqCase{Label: v.name + " / via signed index, no cache / " + lz, ViaIndex: true, indexed: v.index, key: key,
-				Steps: []step{{NewProcess: true, Cache: -1, Lazy: lazy, Checksum: chk, Serve: v.serve}}})
-			run(&seqCase{Label: v.name + " / via signed index, warm cache from an earlier process / " + lz, ViaIndex: true, indexed: v.index, key: key,
-				Steps: []step{{NewProcess: true, Cache: 0, Lazy: lazy, Checksum: chk, Serve: idx}, {NewProcess: true, Cache: 0, Lazy: lazy, Checksum: chk, Serve: v.serve}}})
+			run(&seqCase{Label: v.name + " / via signed index, no cache / " + lz, ViaIndex: true, indexed: v.index, key: key, cell: v.family + "/via signed index, no cache/" + lz,
+				Steps: []step{{NewProcess: true, Cache: -1, Lazy: lazy, Checksum: v.chk, Serve: v.serve}}})
+			run(&seqCase{Label: v.name + " / via signed index, warm cache from an earlier process / " + lz, ViaIndex: true, indexed: v.index, key: key, cell: v.family + "/via signed index, warm/" + lz,
+				Steps: []step{{NewProcess: true, Cache: 0, Lazy: lazy, Checksum: v.chk, Serve: v.idx}, {NewProcess: true, Cache: 0, Lazy: lazy, Checksum: v.chk, Serve: v.serve}}})
 		}
 	}
 	// generated sequences over fresh builds
-	rounds := 25
+	rounds := 40
 	if *tier == "thorough" {
-		rounds = 300
+		rounds = 400
 	}
 	for i := 0; i < rounds; i++ {
 		vs := g.variants(fmt.Sprintf("r%d", i))
 		v := &vs[r.Intn(len(vs))]
 		lazy := r.Bool()
-		idx := &apkfile{Label: "as indexed", ctlOf: v.index, datOf: v.index}
 		var steps []step
 		for j, ns := 0, 2+r.Intn(3); j < ns; j++ {
-			s := step{NewProcess: j == 0 || r.Bool(), Cache: r.Intn(3) - 1, Lazy: lazy, Checksum: v.checksum()}
+			s := step{NewProcess: j == 0 || r.Bool(), Cache: r.Intn(3) - 1, Lazy: lazy, Checksum: v.chk}
 			switch r.Intn(4) {
 			case 0:
-				s.Serve = idx
+				s.Serve = v.idx
 			case 1, 2:
 				s.Serve = v.serve
 			case 3:
@@ -632,15 +973,35 @@ func main() {
 			}
 			if r.Chance(1, 6) {
 				w := &vs[r.Intn(len(vs))]
-				s.Checksum = w.checksum()
+				s.Checksum = w.chk
 			}
 			if r.Chance(1, 8) {
 				lazy = !lazy
 				s.Lazy = lazy
 			}
+			if r.Chance(1, 6) {
+				s.DropTar = true
+			}
 			steps = append(steps, s)
 		}
-		run(&seqCase{Label: fmt.Sprintf("generated %d around %q", i, v.name), Steps: steps})
+		run(&seqCase{Label: fmt.Sprintf("generated %d around %q", i, v.name), Steps: steps, cell: "generated/" + v.family})
+	}
+	minCell := -1
+	for _, c := range cells {
+		if minCell < 0 || c < minCell {
+			minCell = c
+		}
+	}
+	fams := make([]string, 0, len(families))
+	for f := range families {
+		fams = append(fams, f)
+	}
+	sort.Strings(fams)
+	wr.Extra = map[string]any{"variants": len(vs), "variant_families": fams, "histories": 6, "install_paths": 2,
+		"cells": len(cells), "cells_expected": len(vs) * 6 * 2, "min_cases_per_cell": minCell}
+	// one wave of the 16 parallel coqc jobs
+	if wr.Shard = (wr.Len() + 15) / 16; wr.Shard < 40 {
+		wr.Shard = 40
 	}
 	if err := wr.Flush(); err != nil {
 		fmt.Fprintln(os.Stderr, "c05:", err)
